@@ -24,6 +24,15 @@ SPEC_NAME_HINT = ('_spec', 'spec')
 
 
 def run(ctx):
+    _run(ctx)
+    r7 = ctx.rule('R7', 'publishing and routing are evaluated against the '
+                  'inbound context refreshed from all upstream tasks, not '
+                  'the one of the first branch that arrived', 'PAIR (order)')
+    from mstatic.rules import shared as _sh
+    _sh.inbound_before_publish(ctx, r7)
+
+
+def _run(ctx):
     prog, sd = ctx.prog, ctx.sd
 
     # ---- R1 compare-and-swap losers skip -----------------------------------
